@@ -165,6 +165,16 @@ def tamper_dataset(task: dict) -> dict:
             cuts = range(n) if task["all_offsets"] else sorted({0, 1, n // 2, n - 1} & set(range(n)))
             for c in cuts:
                 trial(rel, f"truncate:{c}", data[:c], demand=hashing)
+            # byte changes that keep a JSON document equivalent (line endings, white space) are modifications too
+            if b"\n" in data:
+                nl = [i for i, b in enumerate(data) if b == 0x0A]
+                k = nl[rng.randrange(len(nl))]
+                trial(rel, "newline:lf-to-cr", data[:k] + b"\r" + data[k + 1:], demand=hashing)
+                trial(rel, "newline:insert-cr", data[:k] + b"\r" + data[k:], demand=hashing)
+                trial(rel, "newline:all-crlf", data.replace(b"\n", b"\r\n"), demand=hashing)
+            if b" " in data:
+                k = data.index(b" ")
+                trial(rel, "whitespace:space-to-tab", data[:k] + b"\t" + data[k + 1:], demand=hashing)
             trial(rel, "extend:nul", data + b"\x00", demand=hashing)
             trial(rel, "extend:newline", data + b"\n", demand=hashing)
             trial(rel, "delete", None, demand=hashing)
